@@ -376,7 +376,7 @@ func checkNegative(c negCase, r *h.Rec) error {
 		if !c.Full && !o.primary(l) {
 			continue
 		}
-		in := append([]byte{}, cand...)
+		in := own(cand)
 		label, err := judge(cvx, priv, d, o, in, cand)
 		if err != nil {
 			return fmt.Errorf("mutation %s pos %d val %#x of a %v ciphertext: %v\n    valid %s", c.Mut, c.Pos, c.Val, l, err, h.Hex(valid))
@@ -431,7 +431,7 @@ func convertCandidate(priv *sm2.PrivateKey, d *big.Int, cand []byte, l layout) e
 		var out []byte
 		_, err, pan := call(func() ([]byte, error) {
 			var e error
-			out, e = cvt.run(append([]byte{}, cand...))
+			out, e = cvt.run(own(cand))
 			return nil, e
 		})
 		if pan != "" {
